@@ -263,7 +263,7 @@ func (P *Program) VerifyFunc(ct *Contract, fn *ssa.Function) (res *FuncResult) {
 	// vacuity: the preconditions (with type invariants) must be satisfiable
 	vc.AddObligation(&Obligation{Name: fmt.Sprintf("cover/%s/requires-sat", ex.oblPrefix), Tag: "cover", Kind: "cover", Func: fn.String(), Goal: "true", IsCover: true, Desc: "preconditions are satisfiable"})
 
-	if !ct.ModAll && (len(ct.Modifies) > 0 || ct.hasModifiesNothing()) {
+	if !ct.ModAll && !ct.TrustFrame && (len(ct.Modifies) > 0 || ct.hasModifiesNothing()) {
 		menv := &SpecEnv{ex: ex, vars: vars, stypes: map[string]*SType{}, cur: entry, old: entry, pkg: pkg, expand: ex.expands, what: "modifies of " + ct.Target}
 		ex.topLocs = f.evalLocs(menv, ct.Modifies)
 		if ex.topLocs == nil {
@@ -369,7 +369,7 @@ func (P *Program) VerifyFunc(ct *Contract, fn *ssa.Function) (res *FuncResult) {
 		}
 	}
 	// frame
-	if !ct.ModAll && (len(ct.Modifies) > 0 || ct.hasModifiesNothing()) {
+	if !ct.ModAll && !ct.TrustFrame && (len(ct.Modifies) > 0 || ct.hasModifiesNothing()) {
 		f.frameObligations(ct, ex.topLocs, entry, rets)
 	}
 	// canary: a false postcondition behind the reachable returns must be refuted
